@@ -125,7 +125,7 @@ class Script(Session):
         c = ctx()
         t0 = _t.time()
         s = z3.Solver()
-        s.set("timeout", 5000)
+        s.set("timeout", 20000)
         for h in c.hyps():
             s.add(h)
         r = s.check()
